@@ -92,8 +92,6 @@ def cls_env_name_padding(f):
     if src is None or out is None:
         return False
     edits = name_padding_edits(src)
-    if not edits:
-        return False
     import oracles_parse as op
     names = set()
     if f.kind == 'tolerant-output-not-input-plus-closers':
@@ -103,6 +101,14 @@ def cls_env_name_padding(f):
             names |= op.env_names(impl.parse(src, 1))
         except Exception:     # noqa
             pass
+    if f.kind == 'tolerant-output-not-input-plus-closers' and re.search(r'\\(begin|end)', src):
+        # names that contain nested environments / comments defeat the token
+        # matcher above: fall back to the alignment itself, additionally allowed
+        # to drop blanks at either end of a brace group's contents - accepted only
+        # when the strict alignment fails and this one succeeds
+        if op.only_closers_inserted(src, out, names) is not None and \
+                op.only_closers_inserted(src, out, names, allow_name_padding=True) is None:
+            return True
     edits = edits[:8]
     for r in range(len(edits), 0, -1):
         for sub in itertools.combinations(edits, r):
